@@ -75,6 +75,15 @@ func extraKeys(pool *kslib.Pool) {
 		KD: proto.Clone(k0.GetKeyData()).(*tinkpb.KeyData), Prefix: k0.GetOutputPrefixType(), Pub: -1, Priv: -1})
 }
 
+// keyVariants: the output prefix variants under which the key-object sections look at a pool key: its
+// own in the quick tier, all four in the thorough tier.
+func keyVariants(pk *kslib.PoolKey) []tinkpb.OutputPrefixType {
+	if !hlib.Thorough() || slowKey(pk) {
+		return []tinkpb.OutputPrefixType{pk.Prefix}
+	}
+	return prefixTypes
+}
+
 func parseKey(kd *tinkpb.KeyData, pt tinkpb.OutputPrefixType) (k key.Key, err error) {
 	if pan := hlib.Recover(func() {
 		id := uint32(fixedKeyID)
@@ -246,74 +255,77 @@ func (e *engine) sectionKeys(pool *kslib.Pool, seed uint64) {
 	accSeen := map[string]bool{}
 	ctorSeen := map[string]bool{}
 	for i, pk := range pool.Keys {
-		pt := pk.Prefix
-		root, err := parseKey(pk.KD, pt)
-		if err != nil {
-			e.skip("key-object["+pk.Name+"]", err.Error())
-			continue
-		}
-		probe := keyProbe(pool, i, pt)
-		obs := func(k, twin key.Key) string {
-			s := objObs(k, twin)
-			if probe != nil {
-				s += "|" + probe(k)
-			}
-			return s
-		}
-		// ---- accessors
-		for _, lf := range accessors(root) {
-			lf := lf
-			accSeen[lf.api] = true
-			e.o.Count("accessor:" + lf.api)
-			e.run(spec{api: lf.api, det: true, extra: "root=" + pk.Name + " path=" + strings.Join(lf.path, "."),
-				mk: func() (*inst, error) {
-					k, err := parseKey(pk.KD, pt)
-					if err != nil {
-						return nil, err
-					}
-					twin, err := parseKey(pk.KD, pt)
-					if err != nil {
-						return nil, err
-					}
-					return &inst{
-						call:    func([][]byte) ([][]byte, string) { return [][]byte{lf.bytes(k)}, "ok" },
-						observe: func() string { return obs(k, twin) },
-					}, nil
-				}})
-		}
-		// ---- constructors
-		for _, c := range ctorsFor(root) {
-			c := c
-			ctorSeen[c.api] = true
-			e.o.Count("constructor:" + c.api)
-			twin, err := recoverAny(func() (any, error) { return c.build(insVals(c.ins)) })
+		for _, pt := range keyVariants(pk) {
+			pt := pt
+			vtok := " variant=" + variantName(pt)
+			root, err := parseKey(pk.KD, pt)
 			if err != nil {
-				e.skip(c.api+"["+pk.Name+"]", "pristine twin: "+err.Error())
+				e.skip("key-object["+pk.Name+"/"+variantName(pt)+"]", err.Error())
 				continue
 			}
-			e.run(spec{api: c.api, extra: "key=" + pk.Name, ins: c.ins, once: true, mk: func() (*inst, error) {
-				var obj any
-				return &inst{
-					call: func(ins [][]byte) ([][]byte, string) {
-						var err error
-						obj, err = c.build(ins)
-						return nil, errS(err)
-					},
-					observe: func() string {
-						if obj == nil {
-							return "no-object"
+			probe := keyProbe(pool, i, pt)
+			obs := func(k, twin key.Key) string {
+				s := objObs(k, twin)
+				if probe != nil {
+					s += "|" + probe(k)
+				}
+				return s
+			}
+			// ---- accessors
+			for _, lf := range accessors(root) {
+				lf := lf
+				accSeen[lf.api] = true
+				e.o.Count("accessor:" + lf.api)
+				e.run(spec{api: lf.api, det: true, extra: "root=" + pk.Name + vtok + " path=" + strings.Join(lf.path, "."),
+					mk: func() (*inst, error) {
+						k, err := parseKey(pk.KD, pt)
+						if err != nil {
+							return nil, err
 						}
-						s := objObs(obj, twin)
-						if k, ok := obj.(key.Key); ok {
-							s += "|" + handleOfHex(k)
-							if probe != nil && c.sameKey {
-								s += "|" + probe(k)
+						twin, err := parseKey(pk.KD, pt)
+						if err != nil {
+							return nil, err
+						}
+						return &inst{
+							call:    func([][]byte) ([][]byte, string) { return [][]byte{lf.bytes(k)}, "ok" },
+							observe: func() string { return obs(k, twin) },
+						}, nil
+					}})
+			}
+			// ---- constructors
+			for _, c := range ctorsFor(root) {
+				c := c
+				ctorSeen[c.api] = true
+				e.o.Count("constructor:" + c.api)
+				twin, err := recoverAny(func() (any, error) { return c.build(insVals(c.ins)) })
+				if err != nil {
+					e.skip(c.api+"["+pk.Name+"]", "pristine twin: "+err.Error())
+					continue
+				}
+				e.run(spec{api: c.api, extra: "key=" + pk.Name + vtok, ins: c.ins, once: true, mk: func() (*inst, error) {
+					var obj any
+					return &inst{
+						call: func(ins [][]byte) ([][]byte, string) {
+							var err error
+							obj, err = c.build(ins)
+							return nil, errS(err)
+						},
+						observe: func() string {
+							if obj == nil {
+								return "no-object"
 							}
-						}
-						return s
-					},
-				}, nil
-			}})
+							s := objObs(obj, twin)
+							if k, ok := obj.(key.Key); ok {
+								s += "|" + handleOfHex(k)
+								if probe != nil && c.sameKey {
+									s += "|" + probe(k)
+								}
+							}
+							return s
+						},
+					}, nil
+				}})
+			}
 		}
 	}
 	// secretdata
